@@ -84,6 +84,7 @@ type Result struct {
 // Doc is the replay document.
 type Doc struct {
 	Property  string   `json:"property"`
+	Comment   string   `json:"comment,omitempty"`
 	Case      Case     `json:"case"`
 	Signature string   `json:"signature,omitempty"`
 	Message   string   `json:"message,omitempty"`
